@@ -651,6 +651,76 @@ pub fn run(args: &Args) -> Report {
         }
     }
 
+    // (c3) alias racing the peer's removal, with the window between "is the peer present?" and "record the alias" held open by
+    // the key's own conversion (alias takes K: Into<String>; the conversion is the only caller-controlled step). Whatever the
+    // order, once both calls returned the departed peer owns no alias, and the key either still belongs to its previous owner
+    // (alias rejected) or to nobody (alias accepted, then purged with the peer).
+    {
+        use std::sync::atomic::AtomicBool;
+        struct SlowKey {
+            s: String,
+            entered: Arc<AtomicBool>,
+            go: Arc<AtomicBool>,
+        }
+        impl From<SlowKey> for String {
+            fn from(k: SlowKey) -> String {
+                k.entered.store(true, Ordering::SeqCst);
+                let t0 = std::time::Instant::now();
+                while !k.go.load(Ordering::SeqCst) && t0.elapsed() < std::time::Duration::from_millis(40) {
+                    std::thread::yield_now();
+                }
+                k.s
+            }
+        }
+        let trials = if miri { 2 } else { args.budget(150, 2_000) };
+        let (mut removed_inside_conversion, mut accepted, mut rejected) = (0u64, 0u64, 0u64);
+        for t in 0..trials {
+            let prior_owner = t % 2 == 1;
+            let reg = PeerRegistry::new();
+            let sink = || Arc::new(CapSink { got: Arc::new(Mutex::new(vec![])), connected: true });
+            reg.insert(PeerHandle::new(pid(0), sink()));
+            reg.insert(PeerHandle::new(pid(1), sink()));
+            if prior_owner {
+                reg.alias(pid(1), "session");
+            }
+            reg.alias(pid(0), "other-key");
+            let (entered, go) = (Arc::new(AtomicBool::new(false)), Arc::new(AtomicBool::new(false)));
+            let (r2, e2, g2) = (reg.clone(), entered.clone(), go.clone());
+            let th = std::thread::spawn(move || r2.alias(pid(0), SlowKey { s: "session".into(), entered: e2, go: g2 }));
+            let t0 = std::time::Instant::now();
+            while !entered.load(Ordering::SeqCst) && t0.elapsed() < std::time::Duration::from_secs(5) {
+                std::thread::yield_now();
+            }
+            let inside = entered.load(Ordering::SeqCst) && !th.is_finished();
+            let was = reg.remove(pid(0)).is_some();
+            go.store(true, Ordering::SeqCst);
+            let alias_ret = th.join().unwrap_or(false);
+            if inside {
+                removed_inside_conversion += 1;
+            }
+            if alias_ret { accepted += 1 } else { rejected += 1 }
+            rep.eval();
+            rep.distinct(&("alias-vs-remove", prior_owner, alias_ret, inside));
+            let left = reg.aliases_for(pid(0));
+            let by = reg.get_by("session").map(|h| unpid(h.peer_id()));
+            let q_list = reg.aliases_for(pid(1));
+            let want_by = if prior_owner && !alias_ret { Some(1u8) } else { None };
+            let q_has = q_list.iter().any(|k| k == "session");
+            if !was || !left.is_empty() || reg.key_for(pid(0)).is_some() || by != want_by || q_has != want_by.is_some() || reg.get(pid(0)).is_some() {
+                rep.violation(
+                    "C18:alias-racing-remove:departed-peer-keeps-alias",
+                    format!(
+                        "alias(peer0, \"session\") raced remove(peer0) (remove ran while the key was being converted: {inside}; key previously owned by peer1: {prior_owner}): alias returned {alias_ret}, remove returned {was}; afterwards aliases_for(peer0)={left:?}, key_for(peer0)={:?}, get_by(session)={by:?} (expected {want_by:?}), aliases_for(peer1)={q_list:?}",
+                        reg.key_for(pid(0))
+                    ),
+                    json!({"trial": t, "prior_owner": prior_owner, "ops": []}),
+                );
+                break;
+            }
+        }
+        rep.set("alias_vs_remove_trials", json!({"remove_ran_during_key_conversion": removed_inside_conversion, "alias_accepted": accepted, "alias_rejected": rejected}));
+    }
+
     // (d) concurrent histories, linearizability
     let nh = if miri { 3 } else { args.budget(1_500, 60_000) };
     let mut lin_ok = 0u64;
